@@ -355,5 +355,37 @@ func extractLink(repo string, o *out) {
 		splices = boolS(ok)
 	}
 	o.emit("remove_always_splices", "", "bool", splices, "true", "", "")
+
+	// chains_are_separate: NewToxicCollection gives every direction a chain of its own - a fresh make(...) per direction, assigned inside a
+	// loop over the directions (or once per direction) - so that appending to one direction's chain can never write into another's
+	sep := ""
+	if fd := p.method("", "NewToxicCollection"); fd != nil && fd.Body != nil {
+		fresh, shared := 0, false
+		ast.Inspect(fd.Body, func(n ast.Node) bool {
+			as, ok := n.(*ast.AssignStmt)
+			if !ok || len(as.Lhs) != 1 || len(as.Rhs) != 1 {
+				return true
+			}
+			ix, ok := as.Lhs[0].(*ast.IndexExpr)
+			if !ok || !strings.HasSuffix(show(fs, ix.X), ".chain") {
+				return true
+			}
+			if c, ok := as.Rhs[0].(*ast.CallExpr); ok && show(fs, c.Fun) == "make" {
+				fresh++
+			} else {
+				shared = true // a slice expression of something else, a variable, ...
+			}
+			return true
+		})
+		// ... and the assignment sits in a loop over the directions
+		inLoop := find(fd.Body, func(n ast.Node) bool {
+			r, ok := n.(*ast.RangeStmt)
+			return ok && strings.HasSuffix(show(fs, r.X), ".chain") && strings.Contains(show(fs, r.Body), "make(")
+		}) != nil
+		if fresh > 0 || shared {
+			sep = boolS(!shared && (inLoop || fresh >= 2))
+		}
+	}
+	o.emit("chains_are_separate", "", "bool", sep, "true", "", "")
 	_ = filepath.Join
 }
